@@ -1,6 +1,7 @@
 import Proofs.InvCorrect
 import Proofs.InvTotal
 import Proofs.FitGeneral
+import Proofs.GuardLemmas
 import Mathlib.LinearAlgebra.Matrix.Determinant.Basic
 import Mathlib.LinearAlgebra.Matrix.NonsingularInverse
 
@@ -125,26 +126,23 @@ theorem nonsquare_error (eps : K) (rows : List (List K))
   rw [this]; rfl
 
 /-- too few points: each fitter raises `NotEnoughPointsError` below its minimum, whatever the data -/
-theorem too_few_points_general (eps : K) (obs : List (Obs K)) (wxy wuv : Option (List K))
-    (h : obs.length < 3) : fitGeneral eps obs wxy wuv = .error .notEnoughPoints := by
+theorem too_few_points_general (eps epsD : K) (obs : List (Obs K)) (wxy wuv : Option (List K))
+    (h : obs.length < 3) : fitGeneral eps epsD obs wxy wuv = .error .notEnoughPoints := by
   unfold fitGeneral; rw [if_pos h]
 
 theorem too_few_points_shift (obs : List (Obs K)) (wxy wuv : Option (List K))
     (h : obs.length = 0) : fitShifts obs wxy wuv = .error .notEnoughPoints := by
   unfold fitShifts; rw [if_pos h]
 
-/-- collinear points: the normal matrix of `fit_general` is singular, so the fit raises
-`SingularMatrixError` instead of returning parameters -/
-theorem collinear_general_singular (eps : K) (heps : 0 < eps) (obs : List (Obs K))
+/-- collinear points: the normal matrix of `fit_general` is singular, so solving the normal
+equations with `inv` (in exact arithmetic) ends with the singular error — whatever the collinearity
+guard does.  (On doubles round-off usually leaves a non-zero pivot: this is why the code now has
+the guard, see `collinear_general_singular`.) -/
+theorem collinear_normal_singular (eps : K) (heps : 0 < eps) (obs : List (Obs K))
     (wxy wuv : Option (List K)) (a b c : K) (hab : a ≠ 0 ∨ b ≠ 0 ∨ c ≠ 0)
     (hline : ∀ o ∈ obs, a * o.u + b * o.v + c = 0)
     (hlen : (generalW obs wxy wuv).length = obs.length) :
-    (∃ e, fitGeneral eps obs wxy wuv = .error e) := by
-  unfold fitGeneral
-  split
-  · exact ⟨_, rfl⟩
-  split
-  · exact ⟨_, rfl⟩
+    gsolve eps (gsums (generalW obs wxy wuv) obs) = .error .singular := by
   set ws := generalW obs wxy wuv
   have hs := gsums_eq ws obs hlen
   simp only at hs
@@ -212,7 +210,96 @@ theorem collinear_general_singular (eps : K) (heps : 0 < eps) (obs : List (Obs K
     · exact h h2
   unfold gsolve
   rw [inv_singular eps heps _ hdet]
+
+/-- **collinear (or coincident) points: `fit_general` raises instead of returning parameters, for
+every threshold `epsD ≥ 0` of the collinearity guard and every pivot threshold `eps` of `inv`.**
+The guard decides: for points on a line `a u + b v + c = 0` the determinant `cuu*cvv − cuv²` of
+the second central moments is exactly `0 ≤ epsD * ((cuu + cvv)/2)²`. -/
+theorem collinear_general_singular (eps epsD : K) (hD : 0 ≤ epsD) (obs : List (Obs K))
+    (wxy wuv : Option (List K)) (a b c : K) (hab : a ≠ 0 ∨ b ≠ 0 ∨ c ≠ 0)
+    (hline : ∀ o ∈ obs, a * o.u + b * o.v + c = 0)
+    (hlen : (generalW obs wxy wuv).length = obs.length) :
+    (∃ e, fitGeneral eps epsD obs wxy wuv = .error e) := by
+  unfold fitGeneral
+  split
+  · exact ⟨_, rfl⟩
+  next hn =>
+  split
+  · exact ⟨_, rfl⟩
+  next hbad =>
+  rw [generalGuard_collinear epsD hD obs wxy wuv a b c hab
+    (fun p hp _ => hline p.2 (List.of_mem_zip hp).2) hlen hn (by simpa using hbad)]
   exact ⟨_, rfl⟩
+
+/-- … and the error is `SingularMatrixError` as soon as there are three points and the weights
+are valid; only the points with a non-zero weight need be on the line -/
+theorem collinear_general_raises_singular (eps epsD : K) (hD : 0 ≤ epsD) (obs : List (Obs K))
+    (wxy wuv : Option (List K)) (a b c : K) (hab : a ≠ 0 ∨ b ≠ 0 ∨ c ≠ 0)
+    (hline : ∀ p ∈ List.zip (generalW obs wxy wuv) obs, p.1 ≠ 0 → a * p.2.u + b * p.2.v + c = 0)
+    (hlen : (generalW obs wxy wuv).length = obs.length)
+    (hn : 3 ≤ obs.length) (hbad : generalBad wxy wuv = false) :
+    fitGeneral eps epsD obs wxy wuv = .error .singular := by
+  unfold fitGeneral
+  rw [if_neg (by omega), hbad,
+    generalGuard_collinear epsD hD obs wxy wuv a b c hab hline hlen (by omega) hbad]
+  rfl
+
+/-- **coincident points** (all `uv` positions equal) are refused in the same way -/
+theorem coincident_general_singular (eps epsD : K) (hD : 0 ≤ epsD) (obs : List (Obs K))
+    (wxy wuv : Option (List K)) (u0 v0 : K) (hpt : ∀ o ∈ obs, o.u = u0 ∧ o.v = v0)
+    (hlen : (generalW obs wxy wuv).length = obs.length) :
+    (∃ e, fitGeneral eps epsD obs wxy wuv = .error e) :=
+  collinear_general_singular eps epsD hD obs wxy wuv 1 0 (-u0) (Or.inl one_ne_zero)
+    (fun o ho => by rw [(hpt o ho).1]; ring) hlen
+
+theorem coincident_general_raises_singular (eps epsD : K) (hD : 0 ≤ epsD) (obs : List (Obs K))
+    (wxy wuv : Option (List K)) (u0 v0 : K) (hpt : ∀ o ∈ obs, o.u = u0 ∧ o.v = v0)
+    (hlen : (generalW obs wxy wuv).length = obs.length)
+    (hn : 3 ≤ obs.length) (hbad : generalBad wxy wuv = false) :
+    fitGeneral eps epsD obs wxy wuv = .error .singular :=
+  collinear_general_raises_singular eps epsD hD obs wxy wuv 1 0 (-u0) (Or.inl one_ne_zero)
+    (fun p hp _ => by rw [(hpt p.2 (List.of_mem_zip hp).2).1]; ring) hlen hn hbad
+
+/-- **the guard refuses nothing that can be fitted for lack of regularity**: when the guard does
+not fire (threshold `epsD ≥ 0`; three points, valid weights) the normal matrix is regular — its
+determinant is `sw·(cuu*cvv − cuv²) > 0` — so `fit_general` returns for every sufficiently small
+pivot threshold of `inv` (`inv_total`), and what it returns is the least-squares optimum
+(`C06.fitGeneral_optimal`) -/
+theorem noncollinear_general_returns (epsD : K) (hD : 0 ≤ epsD) (obs : List (Obs K))
+    (wxy wuv : Option (List K)) (hlen : (generalW obs wxy wuv).length = obs.length)
+    (hn : 3 ≤ obs.length) (hbad : generalBad wxy wuv = false)
+    (hg : generalGuard epsD obs wxy wuv = false) :
+    ∃ eps0 : K, 0 < eps0 ∧ ∀ eps : K, 0 < eps → eps ≤ eps0 →
+      ∃ L, fitGeneral eps epsD obs wxy wuv = .ok L := by
+  have hdet := gmatrix_det_ne_zero_of_guard epsD hD obs wxy wuv hlen (by omega) hbad hg
+  obtain ⟨eps0, h0, h⟩ := inv_total _ hdet
+  refine ⟨eps0, h0, fun eps he hle => ?_⟩
+  obtain ⟨x, hx⟩ := h eps he hle
+  unfold fitGeneral
+  rw [if_neg (by omega), hbad, hg]
+  unfold gsolve
+  rw [hx]
+  exact ⟨_, rfl⟩
+
+-- non-vacuity of the collinearity statements: the F13 witness (integers on the line v = u + 1),
+-- with the code's threshold 2^-52 and with threshold 0; a weighted set whose only off-line point
+-- has weight 0; coincident points; and a non-collinear set on which the guard does not fire
+example : (match fitGeneral (K := ℚ) (1/1000000) (1/4503599627370496)
+    [⟨3, 1, 2, 3⟩, ⟨0, -2, -1, 0⟩, ⟨-8, -10, -9, -8⟩] none none with
+    | .error .singular => true | _ => false) = true := by decide +kernel
+example : (match fitGeneral (K := ℚ) (1/1000000) 0
+    [⟨3, 1, 2, 3⟩, ⟨0, -2, -1, 0⟩, ⟨-8, -10, -9, -8⟩] none none with
+    | .error .singular => true | _ => false) = true := by decide +kernel
+example : (∀ o ∈ [(⟨3, 1, 2, 3⟩ : Obs ℚ), ⟨0, -2, -1, 0⟩, ⟨-8, -10, -9, -8⟩], 1 * o.u + (-1) * o.v + 1 = 0) := by
+  decide +kernel
+example : (match fitGeneral (K := ℚ) (1/1000000) (1/4503599627370496)
+    [⟨3, 1, 2, 3⟩, ⟨0, -2, -1, 0⟩, ⟨-8, -10, -9, -8⟩, ⟨1, 1, 5, 0⟩, ⟨4, 2, 3, 4⟩] (some [1, 2, 3, 0, 1]) none with
+    | .error .singular => true | _ => false) = true := by decide +kernel
+example : (match fitGeneral (K := ℚ) (1/1000000) (1/4503599627370496)
+    [⟨3, 1, 2, 3⟩, ⟨0, -2, 2, 3⟩, ⟨-8, -10, 2, 3⟩, ⟨1, 1, 2, 3⟩] (some [1, 2, 3, 1]) (some [2, 1, 1, 1]) with
+    | .error .singular => true | _ => false) = true := by decide +kernel
+example : generalGuard (K := ℚ) (1/4503599627370496)
+    [⟨1, 1, 0, 0⟩, ⟨3, 0, 1, 0⟩, ⟨0, 4, 0, 1⟩, ⟨2, 3, 1, 1⟩] none none = false := by decide +kernel
 
 -- non-vacuity: a concrete invertible matrix is inverted, a concrete singular one is refused
 example : (invRows (K := ℚ) (1/1000000) [[0, 2], [1, 0]]) = .ok [[0, 1], [1/2, 0]] := by decide +kernel
